@@ -24,7 +24,7 @@ RULE = (
     "Unspecified (not asserted): present-but-all-NaN group with a fill and min_count=None. Non-trivial = an absent "
     "requested label, or a group masked by min_count, or an unrequested present label."
 )
-BUDGET = {"quick": 300, "thorough": 4000}
+BUDGET = {"quick": 600, "thorough": 4000}
 ASSUMPTIONS = [
     "fill values not representable in the result dtype family are not generated (negative fill for unsigned data, 1e6 for 8/16-bit min/max)",
     "arg-reductions get integer fills only",
